@@ -1,4 +1,5 @@
 import Tibc.Props.C19
+import Tibc.Expect.Packet
 #print axioms Tibc.C19.failed_msg_unchanged
 #print axioms Tibc.C19.relay_rejection_records_exactly_receipt_and_ack
 #print axioms Tibc.C19.nftVoucherClass_tokens
